@@ -12,6 +12,7 @@ Property clause → theorem
       `Comdex.Gen.Genesis` and discharged over the whole table by `decide`:
       `C20.store_coverage_full`   every prefix some keeper function writes is read by ExportGenesis or rebuilt by InitGenesis
       `C20.import_faithful_full`  every prefix ExportGenesis reads is decoded and written back from the same genesis field
+      `C20.derived_sourced_full`  every index store InitGenesis rebuilds is rebuilt from records ExportGenesis reads
       `C20.import_total_full`     no InitGenesis loop can silently stop the import
       `C20.counters_exact_full`   every id counter / length key is restored from a stored genesis value
       `C20.fields_used_full`      every genesis field ExportGenesis fills is looked at by InitGenesis
@@ -203,8 +204,8 @@ theorem table_spot_market : ∃ m ∈ modules, m.name = "market" ∧ m.written =
 
 /-! ## gaps of the unchanged tree
 
-`kind`: `store` = written by a keeper, neither exported nor rebuilt; `import` = exported but not decoded / not written back from
-the same field; `abort` = written in or after an InitGenesis loop that silently returns on a rejected record; `counter` = id
+`item` of a counter is `<prefix>.<restoration rule>`. `kind`: `store` = written by a keeper, neither exported nor rebuilt; `import` = exported but not decoded / not written back from
+the same field; `unsourced` = written by InitGenesis from a genesis field ExportGenesis never fills; `abort` = written in or after an InitGenesis loop that silently returns on a rejected record; `counter` = id
 counter not restored from a stored value; `field` = genesis field filled by export, ignored by import. -/
 
 structure Gap where
@@ -226,8 +227,8 @@ def knownGaps : List Gap := [
   -- G03 auctionsV2 InitGenesis resets the exported auction / bid id counters to zero
   ⟨"G03", "import", "auctionsV2", "AuctionIDKey"⟩,
   ⟨"G03", "import", "auctionsV2", "UserBidIDKey"⟩,
-  ⟨"G03", "counter", "auctionsV2", "AuctionIDKey"⟩,
-  ⟨"G03", "counter", "auctionsV2", "UserBidIDKey"⟩,
+  ⟨"G03", "counter", "auctionsV2", "AuctionIDKey.zero"⟩,
+  ⟨"G03", "counter", "auctionsV2", "UserBidIDKey.zero"⟩,
   ⟨"G03", "field", "auctionsV2", "AuctionId"⟩,
   ⟨"G03", "field", "auctionsV2", "UserBiddingID"⟩,
   -- G04 auctionsV2 bids, limit bids, their indexes, id counter, histories and statistics are not exported
@@ -235,7 +236,7 @@ def knownGaps : List Gap := [
   ⟨"G04", "store", "auctionsV2", "UserLimitBidMappingKeyPrefix"⟩,
   ⟨"G04", "store", "auctionsV2", "UserLimitBidMappingKeyForAddressPrefix"⟩,
   ⟨"G04", "store", "auctionsV2", "LimitAuctionBidIDKey"⟩,
-  ⟨"G04", "counter", "auctionsV2", "LimitAuctionBidIDKey"⟩,
+  ⟨"G04", "counter", "auctionsV2", "LimitAuctionBidIDKey.notRestored"⟩,
   ⟨"G04", "store", "auctionsV2", "AuctionHistoricalKeyPrefix"⟩,
   ⟨"G04", "store", "auctionsV2", "BidHistoricalKeyPrefix"⟩,
   ⟨"G04", "store", "auctionsV2", "UserBidHistoricalKeyPrefix"⟩,
@@ -244,15 +245,15 @@ def knownGaps : List Gap := [
   -- G05 liquidationsV2: locked-vault id counter computed in InitGenesis but never stored; sweep offset and reserve-fund
   --     transaction records not exported
   ⟨"G05", "store", "liquidationsV2", "LockedVaultIDKey"⟩,
-  ⟨"G05", "counter", "liquidationsV2", "LockedVaultIDKey"⟩,
+  ⟨"G05", "counter", "liquidationsV2", "LockedVaultIDKey.notRestored"⟩,
   ⟨"G05", "store", "liquidationsV2", "LiquidationOffsetHolderKeyPrefix"⟩,
   ⟨"G05", "store", "liquidationsV2", "AppReserveFundsTxDataKeyPrefix"⟩,
   -- G06 id counters recomputed from the LIVE records (max / last / count): ids of closed positions are handed out again
-  ⟨"G06", "counter", "vault", "VaultIDPrefix"⟩,
-  ⟨"G06", "counter", "lend", "LendCounterIDPrefix"⟩,
-  ⟨"G06", "counter", "lend", "BorrowCounterIDPrefix"⟩,
-  ⟨"G06", "counter", "liquidation", "LockedVaultIDKey"⟩,
-  ⟨"G06", "counter", "auction", "AuctionIDKey"⟩,
+  ⟨"G06", "counter", "vault", "VaultIDPrefix.maxId"⟩,
+  ⟨"G06", "counter", "lend", "LendCounterIDPrefix.lastId"⟩,
+  ⟨"G06", "counter", "lend", "BorrowCounterIDPrefix.lastId"⟩,
+  ⟨"G06", "counter", "liquidation", "LockedVaultIDKey.count"⟩,
+  ⟨"G06", "counter", "auction", "AuctionIDKey.lastId"⟩,
   -- G07 auction (first generation): bids and histories not exported; the exported lend auctions are never imported —
   --     InitGenesis writes the vault dutch auctions under the lend-auction prefix instead
   ⟨"G07", "store", "auction", "UserKeyPrefix"⟩,
@@ -262,30 +263,30 @@ def knownGaps : List Gap := [
   ⟨"G07", "store", "auction", "LendHistoryAuctionKeyPrefix"⟩,
   ⟨"G07", "store", "auction", "LendHistoryUserKeyPrefix"⟩,
   ⟨"G07", "import", "auction", "LendAuctionKeyPrefix"⟩,
-  ⟨"G07", "counter", "auction", "LendAuctionIDKey"⟩,
+  ⟨"G07", "counter", "auction", "LendAuctionIDKey.lastId"⟩,
   ⟨"G07", "field", "auction", "DutchLendAuction"⟩,
   -- G08 stable-mint reward records
   ⟨"G08", "store", "vault", "StableVaultRewardsKeyPrefix"⟩,
   -- G09 locker id counter
   ⟨"G09", "store", "locker", "LockerIDPrefix"⟩,
-  ⟨"G09", "counter", "locker", "LockerIDPrefix"⟩,
+  ⟨"G09", "counter", "locker", "LockerIDPrefix.notRestored"⟩,
   -- G10 lend: funded module balances per asset and pool
   ⟨"G10", "store", "lend", "AssetAndPoolWiseModBalKeyPrefix"⟩,
   -- G11 liquidation (first generation): locked-vault history and its id counter
   ⟨"G11", "store", "liquidation", "LockedVaultDataKeyHistory"⟩,
   ⟨"G11", "store", "liquidation", "LockedVaultKeyHistory"⟩,
-  ⟨"G11", "counter", "liquidation", "LockedVaultKeyHistory"⟩,
+  ⟨"G11", "counter", "liquidation", "LockedVaultKeyHistory.notRestored"⟩,
   -- G12 rewards: stable-vault external rewards, epoch records, external-reward id counters
   ⟨"G12", "store", "rewards", "ExternalRewardsStableVaultKeyPrefix"⟩,
   ⟨"G12", "store", "rewards", "EpochForLockerKeyPrefix"⟩,
   ⟨"G12", "store", "rewards", "EpochTimeIDKey"⟩,
-  ⟨"G12", "counter", "rewards", "EpochTimeIDKey"⟩,
+  ⟨"G12", "counter", "rewards", "EpochTimeIDKey.notRestored"⟩,
   ⟨"G12", "store", "rewards", "ExtRewardsLockerIDKey"⟩,
-  ⟨"G12", "counter", "rewards", "ExtRewardsLockerIDKey"⟩,
+  ⟨"G12", "counter", "rewards", "ExtRewardsLockerIDKey.notRestored"⟩,
   ⟨"G12", "store", "rewards", "ExtRewardsVaultIDKey"⟩,
-  ⟨"G12", "counter", "rewards", "ExtRewardsVaultIDKey"⟩,
+  ⟨"G12", "counter", "rewards", "ExtRewardsVaultIDKey.notRestored"⟩,
   ⟨"G12", "store", "rewards", "ExtRewardsStableVaultIDKey"⟩,
-  ⟨"G12", "counter", "rewards", "ExtRewardsStableVaultIDKey"⟩,
+  ⟨"G12", "counter", "rewards", "ExtRewardsStableVaultIDKey.notRestored"⟩,
   -- G13 asset: governance token of an app
   ⟨"G13", "store", "asset", "GenesisForAppPrefix"⟩,
   -- G14 esm: price snapshot and redemption amounts after an emergency shutdown
@@ -305,11 +306,11 @@ records, or makes the setter fail) could not be driven in the harness. Kept apar
 def suspectedGaps : List Gap := [
   -- one-off main-net refund (hard-coded `comdex1…` recipients, not decodable under the test bech32 prefix)
   ⟨"S01", "store", "collector", "RefundCounterStatusPrefix"⟩,
-  ⟨"S01", "counter", "collector", "RefundCounterStatusPrefix"⟩,
+  ⟨"S01", "counter", "collector", "RefundCounterStatusPrefix.notRestored"⟩,
   -- recomputed from live records whose deletion (pool depreciation, end of a reward period / gauge) was not driven
-  ⟨"S02", "counter", "lend", "PoolIDPrefix"⟩,
-  ⟨"S02", "counter", "rewards", "ExtRewardsLendIDKey"⟩,
-  ⟨"S02", "counter", "rewards", "GaugeIDKey"⟩,
+  ⟨"S02", "counter", "lend", "PoolIDPrefix.lastId"⟩,
+  ⟨"S02", "counter", "rewards", "ExtRewardsLendIDKey.maxId"⟩,
+  ⟨"S02", "counter", "rewards", "GaugeIDKey.maxId"⟩,
   -- loops that return silently on a rejected record, before the one that was made to fail (G02) / whose setter only fails for
   -- an app that does not exist
   ⟨"S03", "abort", "collector", "NetFeeCollectedDataPrefix"⟩,
@@ -338,12 +339,15 @@ def benignCounter (m : Module) (c : Counter) : Bool :=
   | _ => false
 
 def lossyCounters (ms : List Module) : List (String × String) :=
-  ms.flatMap fun m => ((computedCounters m).filter fun c => !benignCounter m c).map fun c => (m.name, c.pfx)
+  ms.flatMap fun m => ((computedCounters m).filter fun c => !benignCounter m c).map fun c => (m.name, counterTag m c.pfx)
 
 /-- ∀ m, written m ⊆ exported m ∪ derived m ∪ historyAllowList — over the table minus the named gaps -/
 theorem store_coverage_full : ∀ g ∈ storeGaps modules, listed "store" g = true ∨ g ∈ historyAllowList := by decide
 
 theorem import_faithful_full : ∀ g ∈ importGaps modules, listed "import" g = true := by decide
+
+/-- every index store InitGenesis rebuilds is rebuilt from records that ExportGenesis really reads -/
+theorem derived_sourced_full : ∀ g ∈ unsourcedGaps modules, listed "unsourced" g = true := by decide
 
 theorem import_total_full : ∀ g ∈ fragileGaps modules, listed "abort" g = true := by decide
 
@@ -357,6 +361,7 @@ def isGap (g : Gap) : Bool :=
   if g.kind == "store" then (storeGaps modules).contains x
   else if g.kind == "import" then (importGaps modules).contains x
   else if g.kind == "abort" then (fragileGaps modules).contains x
+  else if g.kind == "unsourced" then (unsourcedGaps modules).contains x
   else if g.kind == "counter" then (lossyCounters modules).contains x
   else if g.kind == "field" then (fieldGaps modules).contains x
   else false
@@ -369,9 +374,9 @@ theorem suspectedGaps_are_gaps : ∀ g ∈ suspectedGaps, isGap g = true := by d
 theorem allowList_are_gaps : ∀ g ∈ historyAllowList, g ∈ storeGaps modules := by decide
 
 /-- counters accepted as exact although recomputed, with the fact that justifies it -/
-theorem benign_counters : (modules.flatMap fun m => ((computedCounters m).filter (benignCounter m)).map fun c => (m.name, c.pfx)) =
-    [("vault", "StableVaultIDPrefix"), ("lend", "LendPairIDKey"), ("asset", "AppIDKey"), ("asset", "AssetIDKey"),
-     ("asset", "PairIDKey"), ("asset", "PairsVaultIDKey")] := by decide
+theorem benign_counters : (modules.flatMap fun m => ((computedCounters m).filter (benignCounter m)).map fun c => (m.name, counterTag m c.pfx)) =
+    [("vault", "StableVaultIDPrefix.maxId"), ("lend", "LendPairIDKey.lastId"), ("asset", "AppIDKey.maxId"), ("asset", "AssetIDKey.maxId"),
+     ("asset", "PairIDKey.maxId"), ("asset", "PairsVaultIDKey.maxId")] := by decide
 
 /-! ## witnesses -/
 
